@@ -205,7 +205,28 @@ def view(o):
 LIB = [("java.util", "List"), ("java.util", "ArrayList"), ("java.util", "Map"), ("java.io", "IOException"), ("org.lib", "Tool"), ("org.lib.deep", "Order"),
        ("org.lib", "Helper"), ("javax.inject", "Inject"), ("org.lib", "Config"), ("com.acme", "Émile")]
 USES = ["field", "anno", "new", "static", "staticfield", "staticarg", "catch", "param", "ret", "extends", "generic", "throws", "cast", "local",
-        "nestedfield", "nestedparam", "nestedlocal", "nestednew"]
+        "nestedfield", "nestedparam", "nestedlocal", "nestednew",
+        "instanceof", "mref", "mrefnew", "classlit", "multicatch", "bound", "wildcard", "foreach", "trywith", "lambdaparam", "arraytype",
+        "typeargnew", "arraynew", "castarr", "genericret", "annoarg", "ternary"]
+MORE_USES = {   # one method or field that uses the simple name in that position (probed on the real code: all are recognised as uses)
+    "instanceof": "    boolean io%(l)s(Object o) { return o instanceof %(n)s; }",
+    "mref": "    void mr%(l)s(java.util.Collection<String> l) { l.forEach(%(n)s::use); }",
+    "mrefnew": "    Object mn%(l)s() { java.util.function.Supplier<Object> s = %(n)s::new; return s; }",
+    "classlit": "    Object cl%(l)s() { return %(n)s.class; }",
+    "multicatch": "    void mc%(l)s() { try { run(); } catch (RuntimeException | %(n)s e) { run(); } }",
+    "bound": "    <X extends %(n)s> void bd%(l)s(X x) { }",
+    "wildcard": "    void wc%(l)s(java.util.Collection<? extends %(n)s> l) { }",
+    "foreach": "    void fe%(l)s(java.util.Collection<Object> items) { for (%(n)s t : items) { } }",
+    "trywith": "    void tw%(l)s() { try (%(n)s t = open()) { run(); } }",
+    "lambdaparam": "    void lp%(l)s() { run((%(n)s t) -> 1); }",
+    "arraytype": "    private %(n)s[] arr%(l)s;",
+    "typeargnew": "    Object tn%(l)s() { return new java.util.LinkedList<%(n)s>(); }",
+    "arraynew": "    Object an%(l)s() { return new %(n)s[3]; }",
+    "castarr": "    Object cx%(l)s(Object o) { return (%(n)s[]) o; }",
+    "genericret": "    java.util.SortedMap<String, %(n)s> gr%(l)s() { return null; }",
+    "annoarg": "    @Size(groups = %(n)s.class) private int za%(l)s;",
+    "ternary": "    Object te%(l)s(boolean b) { return b ? %(n)s.A : null; }",
+}
 
 
 def unused_file(rng, idx):
@@ -289,6 +310,9 @@ def unused_file(rng, idx):
         elif how == "local":
             methods.append("    void lo%s() { %s v = null; }" % (n, n))
         # the import is used only as the outer name of a nested type: Map.Entry<String, String>, Outer.Inner
+        elif how in MORE_USES:
+            line = MORE_USES[how] % {"n": n, "l": n.lower().replace("é", "e")}
+            (fields if line.rstrip().endswith(";") and "(" not in line.split("=")[0] and "{" not in line else methods).append(line)
         elif how == "constfield":
             fields.append("    private int k%s = %s;" % (n.lower(), n))
         elif how == "constcmp":
